@@ -202,6 +202,16 @@ Proof.
     apply bind_nofault; [apply lex_int_nofault|intros; cbn; auto].
   - apply bind_nofault; [apply assign_tokens_int_nofault|intros [c1 l] _; cbn; auto].
   - apply bind_nofault; [apply assign_tokens_str_nofault|intros [c1 l] _; cbn; auto].
+  - destruct (match val a with VLevel z b => (z, b) | _ => (0%Z, false) end) as [z set].
+    destruct v as [|x r].
+    + destruct (set && negb (a_mix d)); [exact I|].
+      apply bind_nofault; [|intros; cbn; auto].
+      generalize (z + 1)%Z. intros n. induction (a_checks d) as [|c cr IH]; cbn; auto.
+      apply bind_nofault; [|intros; exact IH].
+      destruct c; cbn; auto; repeat match goal with |- context [if ?b then _ else _] => destruct b; cbn; auto end.
+    + destruct (negb (a_mix d) && hasval a); [exact I|].
+      apply bind_nofault; [apply run_checks_nofault|intros _ _].
+      apply bind_nofault; [apply lex_int_nofault|intros; cbn; auto].
 Qed.
 
 Lemma pend_identified_nofault p k : nofault (pend_identified p k).
